@@ -31,6 +31,8 @@ def oracle(c, l, a):
     if a.startswith("err nopos"):
         c.oracle_fail(l, "parser returned an error without a position", l)
         return
+    if f[0] == "syntax.cprint":
+        return
     if a.startswith("err"):
         m = POS.search(a)
         if not m:
